@@ -651,6 +651,8 @@ func registerStd(reg func(string, externalFn)) {
 		}
 		return in.strEq(mkStr(s[:len(p)]), mkStr(p))
 	})
+	reg("internal/stringslite.Clone", func(in *Interp, fr *frame, args []value) value { return args[0] })
+	reg("strings.Clone", func(in *Interp, fr *frame, args []value) value { return args[0] })
 	reg("strings.ToLower", func(in *Interp, fr *frame, args []value) value {
 		return strings.ToLower(in.str(args[0]))
 	})
